@@ -264,18 +264,25 @@ func c03Bytes(c *work.Ctx) {
 		max = 4
 	}
 	c.SelfSharded = true
+	few := false // edits of grammar texts go through three positions and two entry points only
 	run := func(b []byte) {
 		if !c.Begin(b) {
 			return
 		}
 		c03Cur = append([]byte(nil), b...)
 		stdClass := ""
-		for _, pos := range c03Positions(b) {
+		for pi, pos := range c03Positions(b) {
+			if few && pi != 0 && pi != 1 && pi != 7 {
+				continue
+			}
 			want := runEnc(func(x interface{}) ([]byte, error) { return stdjson.Marshal(x) }, pos.x)
 			wantErr := !want.panicked && want.err != nil
 			for i := range c03ByteEntries {
 				e := &c03ByteEntries[i]
 				if !e.normUTF8 && !isASCII(b) {
+					continue
+				}
+				if few && i > 1 {
 					continue
 				}
 				r := runEnc(e.run, pos.x)
@@ -301,6 +308,33 @@ func c03Bytes(c *work.Ctx) {
 		run(b)
 		return true
 	})
+	// every single-byte deletion, insertion and substitution of the grammar texts as member bytes
+	few = true
+	var buf []byte
+	for di, d := range universe.Docs(1) {
+		if di%c.NShards != c.Shard {
+			continue
+		}
+		src := []byte(d)
+		for pos := 0; pos <= len(src); pos++ {
+			if pos < len(src) {
+				buf = append(append(buf[:0], src[:pos]...), src[pos+1:]...)
+				run(buf)
+				for _, s := range util.Sigma {
+					if s != src[pos] {
+						buf = append(buf[:0], src...)
+						buf[pos] = s
+						run(buf)
+					}
+				}
+			}
+			for _, s := range util.Sigma {
+				buf = append(append(append(buf[:0], src[:pos]...), s), src[pos:]...)
+				run(buf)
+			}
+		}
+	}
+	few = false
 	// the number-literal alphabet one symbol longer
 	util.ForEachString([]byte("019-+.eE "), max+2, c.Shard, c.NShards, func(b []byte) bool {
 		run(b)
